@@ -846,14 +846,22 @@ pub fn tfan_pair(rng: &mut Rng) -> (Vec<(Vec<P>, Vec<Vec<P>>)>, Vec<(Vec<P>, Vec
 /// polygon (V inside it, or V a vertex on its left side), or a rectangle covering everything.
 pub fn pinch_set(rng: &mut Rng, n: usize) -> Vec<Vec<(Vec<P>, Vec<Vec<P>>)>> {
     loop {
-        let right_only = rng.chance(3, 5);
+        // 0: all rays to the right of V, 1: all rays above V (then a base rectangle whose top edge
+        // passes THROUGH V may join an operand: V is a T-touch on the edge directly below the fan),
+        // 2: rays all around V
+        let mode = *rng.pick(&[0u32, 0, 1, 1, 2]);
+        let right_only = mode != 2; // "linear" fan: wedges between consecutive rays only
         let k = rng.range(4, 10) as usize;
         let v = (rng.range(-1200, 1200), rng.range(-1200, 1200));
         let mut dirs: Vec<P> = vec![];
         let mut tries = 0;
         while dirs.len() < k && tries < 1000 {
             tries += 1;
-            let d = (if right_only { rng.range(1, 12) } else { rng.range(-12, 12) }, rng.range(-12, 12));
+            let d = match mode {
+                0 => (rng.range(1, 12), rng.range(-12, 12)),
+                1 => (rng.range(-12, 12), rng.range(1, 12)),
+                _ => (rng.range(-12, 12), rng.range(-12, 12)),
+            };
             if d == (0, 0) || dirs.iter().any(|e| cross(*e, d) == 0 && dot(*e, d) > 0) {
                 continue;
             }
@@ -876,9 +884,11 @@ pub fn pinch_set(rng: &mut Rng, n: usize) -> Vec<Vec<(Vec<P>, Vec<Vec<P>>)>> {
             continue;
         }
         let (x1, h) = (v.0 + 1300, 1300);
+        let base = (rect_ring(v.0 - rng.range(1, 900), v.1 - rng.range(1, 900), v.0 + rng.range(1, 900), v.1, true), vec![]);
+        let mut base_used = false;
         let mut out = vec![];
         for _ in 0..n {
-            let shape = rng.below(10);
+            let shape = if mode == 1 { rng.below(6) } else { rng.below(10) }; // above-V fans: parts only (no enclosing polygon)
             if shape == 0 {
                 let m = rng.range(1, 40);
                 out.push(vec![(rect_ring(v.0 - 1300 - m, v.1 - h - m, x1 + m, v.1 + h + m, true), vec![])]);
@@ -918,12 +928,17 @@ pub fn pinch_set(rng: &mut Rng, n: usize) -> Vec<Vec<(Vec<P>, Vec<Vec<P>>)>> {
                 continue;
             }
             if shape <= 5 {
-                out.push(rings.into_iter().map(|r| (r, vec![])).collect());
+                let mut parts: Vec<(Vec<P>, Vec<Vec<P>>)> = rings.into_iter().map(|r| (r, vec![])).collect();
+                if mode == 1 && !base_used && rng.chance(1, 2) {
+                    parts.push(base.clone()); // touches the fan in V only; V is interior to its top edge
+                    base_used = true;
+                }
+                out.push(parts);
             } else {
                 let holes: Vec<Vec<P>> = rings.into_iter().map(|mut r| { r.reverse(); r }).collect();
-                let ext = if right_only && shape <= 7 {
+                let ext = if mode == 0 && shape <= 7 {
                     vec![v, (v.0, v.1 - h), (x1, v.1 - h), (x1, v.1 + h), (v.0, v.1 + h)]
-                } else if right_only {
+                } else if mode == 0 {
                     vec![(v.0 - 7, v.1), (v.0, v.1 - h), (x1, v.1 - h), (x1, v.1 + h), (v.0, v.1 + h)]
                 } else {
                     rect_ring(v.0 - 1300, v.1 - h, x1, v.1 + h, true)
